@@ -117,4 +117,4 @@ REG.add(Contract(f"{PA}.parse", module=M_PA, kind="method", view="string", param
                      "forall(Str, lambda n: ((n in self._all_modules) or exists(Opaque[Path], lambda p: (p in paths) and contrib(self, p, n))) == contrib(self, pre(path), n))",
                      "forall(Str, lambda n: implies(n in self._all_modules, contrib(self, pre(path), n)))",
                      "forall(NamedModule, lambda m: implies(m in modules, nm_name(m) in self._all_modules))"])},
-                 properties=["C04", "C08", "C15"]))
+                 properties=["C04", "C08", "C15", "C02"]))
